@@ -2,8 +2,8 @@
 \* (Prune), every partition into <= 3 parts (Part), two such steps in any order
 SPECIFICATION Spec
 CONSTANTS
-  DimA <- Dims_tiny
-  DimB <- Dims_tiny
+  DimA <- Dims_der_q
+  DimB <- Dims_der_q
   MaxDims = 1
   RemChoices <- Rem_2
   MaxDer = 2
